@@ -60,7 +60,7 @@ def _fresh_handler(name):
     for n in list(registry._handlers):
         h = registry._handlers[n]
         if getattr(h, "__module__", None) == mod or (hasattr(h, "wrapped") and getattr(h.wrapped, "__module__", None) == mod and False):
-            registry._unload_handler_name(n)
+            registry._unload_handler_name(n, locations=False)
     sys.modules.pop(mod, None)
     return registry.get_crypt_handler(name) if False else None
 
@@ -169,7 +169,7 @@ def scenario(spec):
         def make():
             from passlib import registry
 
-            registry._unload_handler_name(name)
+            registry._unload_handler_name(name, locations=False)
             import passlib.hash
 
             passlib.hash.__dict__.pop(name, None)
@@ -257,9 +257,9 @@ def expected_outcomes(spec):
         bodies = make()
         st, v = call(bodies[0])
         if st == "err":
-            out.append(("err", type(v).__name__))
-        else:
-            out.append(("ok", canon(c, v, state.get("obj"))))
+            # every scenario call succeeds single-threaded on a tree where the property can hold at all; anything else is a broken scenario
+            raise RuntimeError(f"scenario {spec} call {c!r} fails single-threaded: {v!r}")
+        out.append(("ok", canon(c, v, state.get("obj"))))
     return out
 
 
